@@ -11,7 +11,8 @@ RULE = ("A macro-free rule (S-rule, all operator kinds) is factored by 1-5 rando
         "split in order between 0-3 extra macro files and the rule file. The inlined twin is ground truth by construction. "
         "Oracle: Yaml2Regex(macro rule).produce_regex() == Yaml2Regex(inlined).produce_regex(); when the texts differ both are "
         "run on the source listing and 20 one-step mutants of it and any difference in the hit lists is the violation; the same "
-        "Yaml2Regex instance asked twice must give the same text. Non-trivial = at least one factoring step was applied and "
+        "Yaml2Regex instance asked twice must give the same text; sequences of rules compiled in one process against the same extra "
+        "macro file (whose macros refer to macros each rule defines differently) must each equal their own inlined twin. Non-trivial = at least one factoring step was applied and "
         "both rules compile; distinct = (macro rule text, extra files).")
 FLOOR = {"quick": 300, "thorough": 4000}
 ANCHOR_HINTS = ["macro_expander", "macro_args_resolver", "args_mapping_generator", "yaml2regex"]
@@ -108,8 +109,46 @@ def one_case(ctx, ws, prep, pattern, probe=False):
         ctx.event("text_differs_behaviour_equal")
 
 
+def library_sequence_stratum(ctx, ws, n):
+    """Several rules compiled one after another in this process against the SAME extra macro file (same path, unchanged
+    content) whose list-bodied macros refer to macros that every rule defines for itself, differently each time. Each rule
+    must still compile to the matcher of its own inlined twin: the library definitions are not altered by being used."""
+    rng = ctx.rng
+    for k in range(n):
+        lib_name, own = rng.choice(["@two", "@lib_pair", "@L"]), rng.choice(["@x", "@own_reg", "@o"])
+        body = rng.choice([[{"$and": [own, own]}], [{"mov": [own, "%rax"]}], [{"$or": [own, "hlt"]}], [{"push": [{"$or": [own, "zz"]}]}]])
+        lib = ws.write(f"lib_{k}.yaml", real.dump_rule({"macros": [{"name": lib_name, "pattern": body}]}))
+        values = rng.sample(["push", "pop", "%rbx", "rcx", "call", "0x10", "ret", "%rsi"], rng.randint(2, 4))
+        for step, v in enumerate(values):
+            use = rng.choice([[lib_name], ["nop", lib_name], [lib_name, lib_name]])
+            text_m = real.dump_rule({"macros": [{"name": own, "pattern": v}], "pattern": use})
+
+            def inline(node):
+                if isinstance(node, str):
+                    return node.replace(own, v)
+                if isinstance(node, list):
+                    return [inline(x) for x in node]
+                if isinstance(node, dict):
+                    return {inline(a): inline(b) for a, b in node.items()}
+                return node
+            inl = [inline(body[0]) if x == lib_name else x for x in use]
+            text_i = real.dump_rule({"pattern": inl})
+            rm = real.compile_rule(ws.write("seq_m.yaml", text_m), [lib])
+            ri = real.compile_rule(ws.write("seq_i.yaml", text_i))
+            ctx.ran(2)
+            ctx.event("library_sequence_steps")
+            ctx.case(("libseq", k, step, text_m), rm[0] == "ok" and ri[0] == "ok", stratum="library sequence")
+            if rm[:2] != ri[:2]:
+                ctx.disagreement({"macro_rule": text_m, "extra_macro_files": [open(lib).read()], "inlined_rule": text_i, "forms": ["library-sequence"],
+                                  "sequence_position": step, "earlier_values": values[:step], "listing": "", "sinsts": []},
+                                 f"step {step} of a sequence of rules sharing one extra macro file: rule with {own}={v!r} compiles to {str(rm[1])[:160]!r}, "
+                                 f"its inlined twin to {str(ri[1])[:160]!r} (earlier rules defined {own} as {values[:step]})")
+                break
+
+
 def run_shard(ctx):
     d = drive.Driver(ctx, feat, flags="none", styles=("mixed", "dups", "runs"))
+    library_sequence_stratum(ctx, d.ws, ctx.share(48, 2000))
     n = ctx.share(2000, 250000)
     done = 0
     while done < n:
